@@ -47,6 +47,8 @@ class Check(FormulaCheck):
         for k, dc in enumerate(({'prec': 6}, {'prec': 3, 'rounding': 'ROUND_DOWN'}, {'prec': 28, 'trap_inexact': True})):
             specs.append({'campaign': 'literals', 'seed': seed, 'n': 600 if q else 10000, 'i': 'dc%d' % k, 'decimal_context': dc})
             specs.append({'campaign': 'percent', 'lo': 0, 'hi': 2001, 'decimal_context': dc})
+        for lim in (0, 640):
+            specs.append({'campaign': 'literals', 'seed': seed, 'n': 300 if q else 3000, 'i': 'lim%d' % lim, 'int_max_str_digits': lim})
         return specs
 
     def prepare(self, spec, rec):
@@ -77,6 +79,7 @@ class Check(FormulaCheck):
     # ------------------------------------------------------------------ numeric literals
     def c_literals(self, spec, rec):
         rnd = self.rng(spec)
+        self.long_literals(rec, rnd)
         for _ in range(spec['n']):
             k = rnd.random()
             nd = rnd.choice([1, 2, 3, 8, 15, 16, 17, 18, 30, 60, rnd.randint(1, 60)])
@@ -121,6 +124,38 @@ class Check(FormulaCheck):
             rec.cov('literal_forms', (form, ctx))
             rec.cov('literal_lengths', (form, min(len(txt), 61)))
             rec.sample({'formula': f, 'expected': repr(exp)}, k=6)
+
+    def long_literals(self, rec, rnd):
+        """'all decimal literals': also those longer than the interpreter cares to convert in one go (sys.get_int_max_str_digits(), 4300 by
+        default, lowered or lifted by the host) - a whole-number literal is that whole number, never its own digits as text"""
+        import sys
+        lim = sys.get_int_max_str_digits() if hasattr(sys, 'get_int_max_str_digits') else 0
+        for n in ([lim - 1, lim, lim + 1, lim + 2, 2 * lim + 7] if lim else [4300, 4301, 9000]):
+            digits = rnd.choice('123456789') + ''.join(rnd.choice('0123456789') for _ in range(n - 1))
+            exp = 0
+            for i in range(0, n, 500):      # (the harness converts in pieces itself)
+                exp = exp * 10 ** len(digits[i:i + 500]) + int(digits[i:i + 500])
+            for f, want in ((digits, exp), ('(%s)' % digits, exp), ('%s-%s' % (digits, digits), 0), ('%s=%s' % (digits, digits), True), ('%s<%s1' % (digits, digits), True), ('-%s' % digits, -exp)):
+                r = self.parse(f)
+                got = r['result']
+                ok = r['error'] is None and type(got) is type(want) and got == want
+                self.expect('C05/numeric-literal:digits:longer-than-the-interpreter-converts-at-once', ok, formula=f[:20] + '...', digits=n, interpreter_limit=lim,
+                            got=(type(got).__name__, r['error']), expected=type(want).__name__)
+                rec.nt(('long', n, f[-8:]))
+            rec.cov('literal_lengths', ('digits', n))
+            # the same length behind a decimal point: a fraction of that many digits is an ordinary double
+            frac = ''.join(rnd.choice('0123456789') for _ in range(n))
+            num = 0
+            for i in range(0, n, 500):
+                num = num * 10 ** len(frac[i:i + 500]) + int(frac[i:i + 500])
+            small = float(Fr(num, 10 ** n))
+            for f, want in (('.' + frac, small), ('0.' + frac, small), ('7.' + frac, float(Fr(7 * 10 ** n + num, 10 ** n))), ('(.%s)=(0.%s)' % (frac, frac), True)):
+                r = self.parse(f)
+                got = r['result']
+                ok = r['error'] is None and type(got) is type(want) and got == want
+                self.expect('C05/numeric-literal:fraction:longer-than-the-interpreter-converts-at-once', ok, formula=f[:12] + '...', digits=n, interpreter_limit=lim,
+                            got=(type(got).__name__, r['error'], got if isinstance(got, (float, bool)) else None), expected=want)
+                rec.nt(('longfrac', n, f[:3]))
 
     def c_percent(self, spec, rec):
         """every integer percentage 0..10000"""
